@@ -1101,6 +1101,26 @@ func (c *EvalCtx) call(e *ast.CallExpr) tv {
 				}
 			}
 			c.errf("errvar: string literal expected")
+		case "nsent", "sentAt":
+			// the ghost log of a channel: nsent(ch) values have been sent on it so far, sentAt(ch, i) is the i-th of them
+			chv := c.eval(e.Args[0])
+			cht, ok := chv.t.Underlying().(*types.Chan)
+			if !ok {
+				c.errf("%s: not a channel", id.Name)
+			}
+			el := cht.Elem()
+			base := "chan:" + shortTypeName(el)
+			ch := c.asTerm(chv)
+			if id.Name == "nsent" {
+				nr := ex.getRegion(c.st, base+".nsent", p.ArraySort(IntSort, IntSort))
+				n := p.Select(nr, ch)
+				if c.wf != nil {
+					c.wf.facts = append(c.wf.facts, p.Ge(n, p.Int(0)))
+				}
+				return tv{n, types.Typ[types.Int]}
+			}
+			sr := ex.getRegion(c.st, base+".sent", p.ArraySort(IntSort, p.ArraySort(IntSort, ex.tm.SortOf(el))))
+			return tv{p.Select(p.Select(sr, ch), c.asTerm(c.eval(e.Args[1]))), el}
 		case "isErr":
 			return tv{ex.isErr(c.asTerm(c.eval(e.Args[0])), c.asTerm(c.eval(e.Args[1]))), types.Typ[types.Bool]}
 		case "cast":
